@@ -653,6 +653,32 @@ def cumsum(a, axis=None):
     return out
 
 
+def searchsorted(a, v, side='left', sorter=None):
+    """numpy.searchsorted(a, v, side) for a 1-d array and a scalar.  numpy documents the result only for an ascending `a`; the spec is therefore
+    CONDITIONAL: a fresh index i in [0, n], and IF a is ascending THEN  side='left': a[j] < v for j < i and v <= a[j] for j >= i;
+    side='right': a[j] <= v for j < i and v < a[j] for j >= i.  For an unsorted array nothing is known about i (sound, no precondition)."""
+    if sorter is not None or side not in ('left', 'right'):
+        raise OutOfSubset('np.searchsorted with sorter / side=%r' % (side,))
+    arr = asarray(a)
+    if arr.ndim != 1 or isinstance(v, SArr) and v.ndim != 0:
+        raise OutOfSubset('np.searchsorted for a rank-%d array / non-scalar value' % arr.ndim)
+    s = arr.snapshot()
+    n = s.shape[0]
+    real = (lambda t: z3.ToReal(t)) if s.kind == 'int' else (lambda t: t)
+    tv = _real(v)
+    vc = cur()
+    i = vc.fresh_int('searchsorted', nonneg=True)
+    vc.assume(i <= n)
+    asc = forall_range(0, n - 1, lambda j: real(s.at(j)) <= real(s.at(j + 1)), 'j')
+    if side == 'left':
+        below, above = (lambda t: t < tv), (lambda t: tv <= t)
+    else:
+        below, above = (lambda t: t <= tv), (lambda t: tv < t)
+    vc.assume(z3.Implies(asc, z3.And(forall_range(0, i, lambda j: below(real(s.at(j))), 'j'), forall_range(i, n, lambda j: above(real(s.at(j))), 'j'))))
+    vc.libcall('np.searchsorted', dict(arr=s, value=tv, side=side, res=i, ascending=asc))
+    return SInt(i)
+
+
 def insert(arr, obj, values, axis=None):
     a = asarray(arr).snapshot()
     if a.ndim != 1 or not (isinstance(obj, int) and obj == 0):
@@ -798,7 +824,7 @@ class _Module:
                  asarray=asarray, asanyarray=asanyarray, array=array, atleast_1d=atleast_1d, atleast_2d=atleast_2d,
                  transpose=transpose, squeeze=squeeze, expand_dims=expand_dims, reshape=reshape, column_stack=column_stack,
                  concatenate=concatenate, vstack=vstack, hstack=hstack, sum=sum, mean=mean, all=all, any=any, argsort=argsort,
-                 argmin=argmin, clip=clip, logical_and=logical_and, logical_or=logical_or, logical_not=logical_not, isclose=isclose, square=square, count_nonzero=count_nonzero, diag=diag, cumsum=cumsum, insert=insert, average=average, isfinite=isfinite, isinf=isinf, isnan=isnan, where=where, dot=dot, prod=prod,
+                 argmin=argmin, clip=clip, logical_and=logical_and, logical_or=logical_or, logical_not=logical_not, isclose=isclose, square=square, count_nonzero=count_nonzero, diag=diag, cumsum=cumsum, insert=insert, searchsorted=searchsorted, average=average, isfinite=isfinite, isinf=isinf, isnan=isnan, where=where, dot=dot, prod=prod,
                  minimum=minimum, maximum=maximum, abs=abs_, absolute=abs_, ndim=ndim, shape=shape, ndarray=ndarray,
                  inf=SReal(INF), pi=_np.pi, newaxis=None, float64=float, int64=int, bool_=bool,
                  )
